@@ -38,7 +38,9 @@ Print Assumptions C31_close.
    run (explicit clock, fuelled loop, Begin answering as the model's environment: held by somebody else until r)
    is the hand model's begin_with_retry. *)
 From Coq Require Import String.
-From RQ Require Import Lib.GoLib Gen.CasRetry Proofs.C31_Gen.
+From RQ Require Import Lib.GoLib.
+From RQ Require Import Gen.CasRetry.
+From RQ Require Import Proofs.C31_Gen.
 Theorem C31_source_derived_eq : forall fuel timeout interval r c owner,
   outcome_of (gen_bwr fuel timeout interval r c owner) = begin_with_retry fuel timeout interval r.
 Proof. exact gen_BeginWithRetry_eq. Qed.
